@@ -149,7 +149,9 @@ impl IncomingToken {
                 orig_dst_cid,
                 issued,
             } => {
-                if address != remote_address {
+                // Only the IP address and port are encoded in the token; IPv6 flow info and
+                // scope ID (which `SocketAddr` equality would also compare) are not.
+                if (address.ip(), address.port()) != (remote_address.ip(), remote_address.port()) {
                     return Err(InvalidRetryTokenError);
                 }
                 if issued + server_config.retry_token_lifetime < server_config.time_source.now() {
